@@ -2,6 +2,7 @@
 # tools/run_all.sh [quick|thorough] : run every claimed check on the current tree, summarise
 tier=${1:-quick}
 cd /verif
+[ "$tier" = thorough ] && ./check selfcheck 2>&1 | grep -E "^selfcheck|^MISMATCH|^LOST"
 for i in 01 02 03 04 05 06 07 08 09 10 11 12 13 14 15 16 17 18 19 20; do
   ./check C$i $tier 2>&1 | grep -E "^C$i |^VIOLATION|^CHECKER" | cut -c1-200
 done
